@@ -31,6 +31,25 @@ func NewBitArray(bits int) *BitArray {
 	}
 }
 
+// ValidateBasic checks that the number of elements is the one the number of bits requires.
+// A nil BitArray is valid. A BitArray decoded from the wire carries Bits and Elems
+// independently; every index computation in this file relies on them matching.
+func (bA *BitArray) ValidateBasic() error {
+	if bA == nil {
+		return nil
+	}
+	bA.mtx.Lock()
+	defer bA.mtx.Unlock()
+	if bA.Bits < 0 {
+		return fmt.Errorf("negative number of bits %d", bA.Bits)
+	}
+	if expected := (bA.Bits + 63) / 64; len(bA.Elems) != expected {
+		return fmt.Errorf("mismatch between number of bits %d and number of elements %d (expected %d)",
+			bA.Bits, len(bA.Elems), expected)
+	}
+	return nil
+}
+
 // Size returns the number of bits in the bitarray
 func (bA *BitArray) Size() int {
 	if bA == nil {
